@@ -13,13 +13,15 @@ Definition tr_mismatch (c : tr_case) : option (Z * Z) :=
   let '(id, reg, d, amt, reached) := c in
   if Bool.eqb (transfer_gate reg d amt) reached then None else Some (id, 1).
 
-(* registry edit: id, registry before (denom, bits), op (1 MsgRegister, 2 MsgDeregister), denom, bits, registry after *)
-Definition re_case := (Z * list (Z * Z) * Z * Z * Z * list (Z * Z))%type.
+(* registry edit: id, registry before (denom, bits), op (1 MsgRegister, 2 MsgDeregister, 3 MsgSetRegistry), denom, bits,
+   the list carried by a MsgSetRegistry (empty for the other two), registry after *)
+Definition re_case := (Z * list (Z * Z) * Z * Z * Z * list (Z * Z) * list (Z * Z))%type.
 Definition dRe : dec re_case :=
-  id <- dZ ;; pre <- dList (dPair dZ dZ) ;; op <- dZ ;; d <- dZ ;; b <- dZ ;; post <- dList (dPair dZ dZ) ;; dRet (id, pre, op, d, b, post).
+  id <- dZ ;; pre <- dList (dPair dZ dZ) ;; op <- dZ ;; d <- dZ ;; b <- dZ ;; newl <- dList (dPair dZ dZ) ;;
+  post <- dList (dPair dZ dZ) ;; dRet (id, pre, op, d, b, newl, post).
 Definition re_mismatch (c : re_case) : option (Z * Z) :=
-  let '(id, pre, op, d, b, post) := c in
-  let want := if op =? 1 then set_token d b pre else remove_token d pre in
+  let '(id, pre, op, d, b, newl, post) := c in
+  let want := if op =? 1 then set_token d b pre else if op =? 3 then set_registry newl pre else remove_token d pre in
   if list_eqb (pair_eqb Z.eqb Z.eqb) want post then None else Some (id, 1).
 
 Definition c12_mismatches (steps trs : list (list int)) : list (Z * Z) :=
